@@ -97,6 +97,21 @@ fn main() {
         println!("{}", json!({"refdft_worst": w}));
         std::process::exit(if w < 1e-25 { 0 } else { 2 });
     }
+    if driver == "plantrees" {
+        // flat plan trees of the scalar and SSE planners for n = 2..max (for bin/gen_execplan_cfgs.py)
+        use crate::planners::{AnyPlanner, Kind, NewResult};
+        let max: usize = seed as usize;
+        for kind in [Kind::Scalar, Kind::Sse] {
+            if let NewResult::Ok(mut p) = AnyPlanner::<f64>::new(kind) {
+                for n in 2..=max {
+                    if let Some(Ok(tree)) = d_plan::report_tree(&mut p, n, rustfft::FftDirection::Forward) {
+                        println!("{}", json!({"kind": kind.name(), "n": n, "tree": tree}));
+                    }
+                }
+            }
+        }
+        return;
+    }
     if driver == "kernelops" {
         // exact operation counts of the primitive kernels (for spec/KernelOps.tla)
         use rustfft::num_complex::Complex;
